@@ -33,6 +33,32 @@ func init() {
 	specsFor["C07"] = c07Specs
 	checks["C07"] = func(c *Ctx) *Result {
 		r := runSpecs(c, c07Specs(c.Tier))
+		if r.Found == nil {
+			// long version chains (version numbers with several decimal digits): the index after rollbacks, see c09_long.go
+			maxL := 24
+			if c.Tier == "thorough" {
+				maxL = 60
+			}
+			total := 0
+			for _, cfg := range []Cfg{defaultCfg, {Fast: true, Cache: 1000}} {
+				if len(r.Raw) > 0 {
+					break
+				}
+				n, fail := longChainRollbacks(maxL, cfg)
+				total += n
+				if fail != "" {
+					if id := c.KF.MatchRaw(c.ID, fail); id != "" {
+						c.KF.NoteRaw(id, fail)
+						continue
+					}
+					rawViolation(c, r, fail, map[string]any{"cfg": cfg})
+				}
+			}
+			r.States += total
+			r.Transitions += total
+			r.Extra = map[string]any{"long_chain_supplement": map[string]any{"max_latest_version": maxL, "rollback_pairs": total,
+				"note": "fixed scenario family: for every (latest L, target v) a chain of L versions, rollback to v, indexed reads vs tree walk vs model, one more commit, reopen"}}
+		}
 		r.Assumptions = []string{"the persisted index is inspected (raw f-entries decoded with the independent codec) after SaveVersion, open, LoadVersion, rollback and import, when the fast index is enabled for the running instance"}
 		return r
 	}
